@@ -26,6 +26,9 @@ pub struct QRec {
 pub struct WCase {
     pub recs: Vec<QRec>,
     pub cap: usize,
+    /// the io::Write used: see c10::Sink ((0,_) Vec, (1,n) at most n bytes per write, (2,n) never across n-byte blocks)
+    #[serde(default)]
+    pub sink: (u8, u16),
 }
 
 pub const ENTRIES: [&str; 4] = ["write_to", "write_parts", "OwnedRecord::write", "RefRecord::write"];
@@ -66,12 +69,13 @@ impl Prop for FastqWrite {
                 QRec { id, desc, seq: B(seq), qual, entry }
             },
         );
-        boxed((vec(rec, 1..6), prop_oneof![3 => 3usize..40, 1 => 40usize..400]).prop_map(|(recs, cap)| WCase { recs, cap }))
+        let sink = prop_oneof![3 => Just((0u8, 0u16)), 2 => (Just(1u8), prop_oneof![1u16..8, 8u16..200]), 1 => (Just(2u8), prop_oneof![1u16..8, 8u16..200, Just(4096u16)])];
+        boxed((vec(rec, 1..6), prop_oneof![3 => 3usize..40, 1 => 40usize..400], sink).prop_map(|(recs, cap, sink)| WCase { recs, cap, sink }))
     }
 
     fn check(&self, c: &WCase, ctx: &mut Ctx) -> CheckResult {
         use fastq::Record;
-        let mut out = Vec::new();
+        let mut out = super::c10::Sink::new(c.sink);
         for r in &c.recs {
             let head = full_head(r);
             ctx.class(&format!("entry: {}", ENTRIES[(r.entry % 4) as usize]));
@@ -100,6 +104,10 @@ impl Prop for FastqWrite {
         if c.recs.len() >= 2 || c.recs.iter().any(|r| r.seq.is_empty() || r.desc.is_some()) {
             ctx.nontrivial(c, c);
         }
+        if out.short_writes > 0 {
+            ctx.class("writer accepted only part of a buffer (short writes)");
+        }
+        let out = out.data;
         let mut rdr = fastq::Reader::with_capacity(&out[..], c.cap);
         let mut i = 0;
         loop {
@@ -139,6 +147,8 @@ pub struct UCase {
     pub cap: usize,
     pub chunks: Vec<u16>,
     pub via_sets: bool,
+    #[serde(default)]
+    pub sink: (u8, u16),
 }
 
 pub struct Unchanged;
@@ -162,7 +172,8 @@ impl Prop for Unchanged {
                 Format::Fasta => gen::fasta_doc_with(6, 6),
                 Format::Fastq => gen::fastq_valid_doc(6),
             };
-            (gen::input_and_cap(f, input), gen::chunks(), any::<bool>()).prop_map(move |((input, cap), chunks, via_sets)| UCase { format: f, input, cap, chunks, via_sets })
+            let sink = prop_oneof![3 => Just((0u8, 0u16)), 1 => (Just(1u8), 1u16..40), 1 => (Just(2u8), 1u16..40)];
+            (gen::input_and_cap(f, input), gen::chunks(), any::<bool>(), sink).prop_map(move |((input, cap), chunks, via_sets, sink)| UCase { format: f, input, cap, chunks, via_sets, sink })
         };
         boxed(prop_oneof![per(Format::Fasta), per(Format::Fastq)])
     }
@@ -199,18 +210,18 @@ impl Prop for Unchanged {
                     while let Some(r) = rdr.read_record_set(&mut set) {
                         ensure!(r.is_ok(), "fastq-unchanged/unexpected-error", "well-formed input gave {:?}", r.err().map(|e| e.to_string()));
                         for rec in &set {
-                            let mut o = Vec::new();
+                            let mut o = super::c10::Sink::new(c.sink);
                             rec.write_unchanged(&mut o).unwrap();
-                            outs.push(o);
+                            outs.push(o.data);
                         }
                     }
                 } else {
                     while let Some(r) = rdr.next() {
                         match r {
                             Ok(rec) => {
-                                let mut o = Vec::new();
+                                let mut o = super::c10::Sink::new(c.sink);
                                 rec.write_unchanged(&mut o).unwrap();
-                                outs.push(o);
+                                outs.push(o.data);
                             }
                             Err(e) => fail!("fastq-unchanged/unexpected-error", "well-formed input gave {}", e),
                         }
@@ -257,18 +268,18 @@ impl Prop for Unchanged {
                     while let Some(r) = rdr.read_record_set(&mut set) {
                         ensure!(r.is_ok(), "fasta-unchanged/unexpected-error", "well-formed input gave an error");
                         for rec in &set {
-                            let mut o = Vec::new();
+                            let mut o = super::c10::Sink::new(c.sink);
                             rec.write_unchanged(&mut o).unwrap();
-                            outs.push((o, rec.to_owned_record()));
+                            outs.push((o.data, rec.to_owned_record()));
                         }
                     }
                 } else {
                     while let Some(r) = rdr.next() {
                         match r {
                             Ok(rec) => {
-                                let mut o = Vec::new();
+                                let mut o = super::c10::Sink::new(c.sink);
                                 rec.write_unchanged(&mut o).unwrap();
-                                outs.push((o, rec.to_owned_record()));
+                                outs.push((o.data, rec.to_owned_record()));
                             }
                             Err(e) => fail!("fasta-unchanged/unexpected-error", "well-formed input gave {}", e),
                         }
@@ -305,7 +316,7 @@ impl Prop for Unchanged {
     }
 }
 
-pub const RULE: &str = "sub-check fastq-write-roundtrip: 1..5 records (id/desc/header as for C10, equally long sequence and quality without LF/CR) through write_to, write_parts, OwnedRecord::write, RefRecord::write (record parsed from a CRLF rendering), parsed back at a generated capacity: head, seq, qual and id/desc parts come back. Sub-check write-unchanged: well-formed FASTQ/FASTA documents (LF, CRLF or per-record/per-line mixture, with/without final terminator, blank tail / blank lines) x capacity x chunk script x {next, record sets}: FASTQ: every record's write_unchanged output = its original bytes (+ LF iff the model says its fourth line is unterminated) and the concatenation = the input up to the end of the last record; FASTA: output ends in LF, equals the record's byte range after stripping trailing CR/LF, and re-parses to exactly one identical owned record. Non-trivial = CRLF or missing final terminator or a record straddling a refill (unchanged) / >= 2 records, empty sequence or description (round trip). Distinct = hash(case).";
+pub const RULE: &str = "sub-check fastq-write-roundtrip: 1..5 records (id/desc/header as for C10, equally long sequence and quality without LF/CR) through write_to, write_parts, OwnedRecord::write, RefRecord::write (record parsed from a CRLF rendering), into a Vec or a writer that accepts only part of each buffer, parsed back at a generated capacity: head, seq, qual and id/desc parts come back. Sub-check write-unchanged: well-formed FASTQ/FASTA documents (LF, CRLF or per-record/per-line mixture, with/without final terminator, blank tail / blank lines) x capacity x chunk script x {next, record sets}: FASTQ: every record's write_unchanged output = its original bytes (+ LF iff the model says its fourth line is unterminated) and the concatenation = the input up to the end of the last record; FASTA: output ends in LF, equals the record's byte range after stripping trailing CR/LF, and re-parses to exactly one identical owned record. Non-trivial = CRLF or missing final terminator or a record straddling a refill (unchanged) / >= 2 records, empty sequence or description (round trip). Distinct = hash(case).";
 
 pub fn run(tier: Tier) -> i32 {
     let mut run = Run::new("C11", tier, "exploration");
